@@ -472,7 +472,7 @@ class Method:
                 and env.locals.get(n.value.id, ("",))[0] == "val" and n.value.id in self.container):
             # x[k] on a container VALUE (a dict / list value): py_getitem
             return self.ev(n.slice, env, ctx, lambda tk, kk, env1: self.prim(
-                "(py_getitem %s %s)" % (env.locals[n.value.id][1], self.to_val(tk, kk)), env1, k, base, tail))
+                "(%s %s %s)" % ("m_scale_getitem" if self.k.tonal else "py_getitem", env.locals[n.value.id][1], self.to_val(tk, kk)), env1, k, base, tail))
         if isinstance(n, ast.BinOp) and type(n.op) in PY_BINOP:
             def k1(ta, a, env1):
                 def k2(tb, b, env2):
@@ -542,6 +542,24 @@ class Method:
                     and env.locals.get(fn.value.id, ("",))[0] == "val"):
                 return self.ev(n.args[0], env, ctx, lambda ta, a, env1: self.prim(
                     "(py_list_index %s %s)" % (env.locals[fn.value.id][1], self.to_val(ta, a)), env1, k, base, tail))
+            if (self.k.tonal and isinstance(fn, ast.Attribute) and fn.attr == "nearest_note" and isinstance(fn.value, ast.Name) and len(n.args) == 1
+                    and env.locals.get(fn.value.id, ("",))[0] == "val"):
+                return self.ev(n.args[0], env, ctx, lambda ta, a, env1: self.prim(
+                    "(m_key_nearest_note %s %s)" % (env.locals[fn.value.id][1], self.to_val(ta, a)), env1, k, base, tail))
+            if (self.k.tonal and isinstance(fn, ast.Name) and fn.id == "tuple" and "tuple" not in self.local_names and len(n.args) == 1
+                    and isinstance(n.args[0], ast.GeneratorExp)):
+                # tuple(E for v in xs), xs a value, E one application of a primitive to v: m_tuple_of (fun v => E) xs
+                g = n.args[0]
+                if (len(g.generators) != 1 or g.generators[0].ifs or g.generators[0].is_async or not isinstance(g.generators[0].target, ast.Name)
+                        or not isinstance(g.generators[0].iter, ast.Name) or env.locals.get(g.generators[0].iter.id, ("",))[0] != "val"):
+                    raise Reject("generator expression not understood: " + ast.unparse(n))
+                v = self.fresh("e")
+                envg = env.set_local(g.generators[0].target.id, "val", v)
+                got = []
+                r = self.ev(g.elt, envg, Ctx(None), lambda ty, t, e2: got.append(None) or "", tail=lambda o, e2: got.append((o, e2 is envg)) or "")
+                if r != "" or len(got) != 1 or got[0] is None or not got[0][1]:
+                    raise Reject("element of the generator expression is not one primitive application: " + ast.unparse(g.elt))
+                return self.prim("(m_tuple_of (fun %s => %s) %s)" % (v, got[0][0], env.locals[g.generators[0].iter.id][1]), env, k, base, tail)
             if (self.mode != "next" and isinstance(fn, ast.Attribute) and fn.attr == "all" and is_self_attr(fn.value) and not n.args):
                 f = self.field(fn.value.attr)
                 ty, t = env.fields[f]
@@ -624,7 +642,7 @@ class Method:
                 tb, b, b2 = self.pure_operand(r, env)
                 if tb != "val" or b1 or b2:
                     raise Reject("`in` on something that is not a container value: " + ast.unparse(n))
-                ir = ("cmp", "(py_contains %s %s)" % (self.to_val(ta, a), b))
+                ir = ("cmp", "(%s %s %s)" % ("m_key_contains" if self.k.tonal else "py_contains", self.to_val(ta, a), b))
                 return ("not", ir) if op is ast.NotIn else ir
             if op in PY_CMP:
                 ta, a, b1 = self.pure_operand(l, env)
@@ -644,6 +662,12 @@ class Method:
                 for (o, x) in reversed(b1 + b2):
                     ir = ("bind", o, x, ir)
                 return ir
+        if (self.k.tonal and isinstance(n, ast.Call) and isinstance(n.func, ast.Name) and n.func.id == "isinstance" and not n.keywords
+                and len(n.args) == 2 and is_static(n.args[1], "typing", "Iterable") and "isinstance" not in self.local_names):
+            ty, t, binds = self.pure_operand(n.args[0], env)
+            if ty != "val" or binds:
+                raise Reject("isinstance of a non-value: " + ast.unparse(n))
+            return ("pure", "(is_iterable %s)" % t)
         # a bare expression as a condition: its truth value
         ty, t, binds = self.pure_operand(n, env)
         if ty == "bool":
@@ -715,7 +739,7 @@ class Method:
                     and is_static(v.func, "Pattern", "value") and "Pattern" not in self.local_names and len(v.args) == 1 and is_self_attr(v.args[0])):
                 if tg.id in self.listlike:
                     raise Reject("%s is used both as the list of an attribute and as a container value" % tg.id)
-                return self.child_call("cvalue pvalue", v.args[0].attr, env, ctx, lambda ty, t, env1: cont(self.assign(tg, ty, t, env1)), "v_" + base)
+                return self.child_call("pvalue" if self.k.tonal else "cvalue pvalue", v.args[0].attr, env, ctx, lambda ty, t, env1: cont(self.assign(tg, ty, t, env1)), "v_" + base)
             return self.ev(st.value, env, ctx, lambda ty, t, env1: cont(self.assign(tg, ty, t, env1)), base="v_" + base)
         if isinstance(st, ast.AugAssign) and type(st.op) in PY_BINOP and (isinstance(st.target, ast.Name) or is_self_attr(st.target)):
             load = ast.copy_location(ast.Name(st.target.id, ast.Load()), st.target) if isinstance(st.target, ast.Name) else \
@@ -856,7 +880,7 @@ class Method:
         term = self.emit_cond(c, env0, lambda: body, lambda: after)
         sig = " ".join("(%s : %s)" % (p, ty) for (_, ty, p) in fparams + lparams)
         self.defs.append("Fixpoint %s (bop : op -> val -> val -> outcome val) (pvalue pnext : nat -> arg -> outcome val * arg)\n"
-                         "    (fuel lfuel n : nat) %s {struct n} : outcome val * pat :=%s." % (name, sig, I(term, 2)))
+                         "    (fuel lfuel n : nat) %s {struct n} : outcome val * %s :=%s." % (name, sig, self.k.rtype, I(term, 2)))
         return "(%s bop pvalue pnext fuel lfuel lfuel %s)" % (name, " ".join([env.fields[f][1] for (f, _, _) in fparams] + [env.locals[n][1] for (n, _, _) in lparams]))
 
 
@@ -917,7 +941,14 @@ def all_self_attrs(chain):
     return out
 
 
-def translate_class(modules, ctors, fname, cname):
+# isobar/pattern/tonal.py: the model of these classes is Pat/TonalStreams.v (objects: mkT <class> <input> <parameter>)
+TONAL = {"PDegree": ("mkT TDegree", [("degree", "arg"), ("scale", "arg")]),
+         "PFilterByKey": ("mkT TFilterByKey", [("pattern", "arg"), ("key", "arg")]),
+         "PNearestNoteInKey": ("mkT TNearestNoteInKey", [("pattern", "arg"), ("key", "arg")])}
+TONAL_UNMODELLED = ["PMidiNoteToFrequency", "PMidiSemitonesToFrequencyRatio", "PKeyTonic", "PKeyScale"]
+
+
+def translate_class(modules, ctors, fname, cname, tonal=False):
     """-> (Klass, {method: text or Reject})"""
     mod = modules[fname]
     nodes = [c for c in mod.body if isinstance(c, ast.ClassDef) and c.name == cname]
@@ -928,6 +959,10 @@ def translate_class(modules, ctors, fname, cname):
     k = Klass()
     k.name, k.has_loops, k.reset_translated = cname, False, False
     k.extras = {"next": set(), "reset": set(), "init": set()}
+    k.tonal, k.rtype = tonal, ("tobj" if tonal else "pat")
+    if tonal:
+        ctors = dict(ctors)
+        ctors[cname] = TONAL[cname][1]
     if cname in BINOPS:
         k.ctor_name, fixed = "PBinOp", [BINOPS[cname]]
     else:
@@ -937,7 +972,7 @@ def translate_class(modules, ctors, fname, cname):
     decl = ctors[k.ctor_name][len(fixed):]
     if fixed and ctors[k.ctor_name][0][1] != "op":
         raise Reject("PBinOp: first field is not the operator")
-    k.ctor = " ".join([k.ctor_name] + fixed)
+    k.ctor = TONAL[cname][0] if tonal else " ".join([k.ctor_name] + fixed)
     bad = [(f, ty) for (f, ty) in decl if ty not in SUPPORTED_TYPES]
     if bad:
         raise Reject("model field %s : %s is of a type the translation does not handle" % bad[0])
@@ -1009,7 +1044,7 @@ def translate_class(modules, ctors, fname, cname):
             raise Reject("a loop in a method that also needs " + ", ".join(sorted(k.extras["next"])))
         results["next"] = (ast.unparse(r[1]), "\n".join(m.defs + [
             "Definition src_%s_next (bop : op -> val -> val -> outcome val) (pvalue pnext : nat -> arg -> outcome val * arg)\n"
-            "    (fuel%s : nat)%s %s : outcome val * pat :=%s." % (cname, lf, extras_sig(k.extras["next"]), sig_fields(), I(term, 2))]))
+            "    (fuel%s : nat)%s %s : outcome val * %s :=%s." % (cname, lf, extras_sig(k.extras["next"]), sig_fields(), k.rtype, I(term, 2))]))
     except Reject as e:
         results["next"] = e
     # ---- __init__ ----
@@ -1157,6 +1192,47 @@ def main(out_path):
         print("tables-step: rewritten")
     else:
         print("tables-step: unchanged")
+
+
+def main_tonal(out_path):
+    """isobar/pattern/tonal.py -> Generated/TablesSteptonal.v (called by harness/gen_tables_steptonal.py)"""
+    repo = os.environ.get("PYTHONPATH", "/repo").split(":")[0]
+    modules = {f: ast.parse(open(os.path.join(repo, "isobar", "pattern", f)).read()) for f in ("core.py", "tonal.py")}
+    check_primitives(modules["core.py"])
+    body, lines, failed = [], [], []
+    for cname in TONAL:
+        try:
+            k, results = translate_class(modules, {}, "tonal.py", cname, tonal=True)
+            r = results["next"]
+        except Reject as e:
+            r = e
+        if isinstance(r, Reject):
+            lines.append("%-32s next: REJECTED: %s" % (cname, r))
+            failed.append("%s.next: %s" % (cname, r))
+        else:
+            body.append("(* %s.__next__ (isobar/pattern/tonal.py):\n%s *)\n%s\n" % (cname, "\n".join("     " + l for l in comment(r[0]).splitlines()), r[1]))
+            lines.append("%-32s next: translated" % cname)
+    for cname in TONAL_UNMODELLED:
+        lines.append("%-32s not translated: the Coq development has no model of this class to tie it to" % cname)
+    text = ("(* GENERATED by harness/gen_tables_steptonal.py (gen_tables_step.py, tonal mode) from the source text of\n"
+            "   isobar/pattern/tonal.py.  Do not edit.  Tie-in: Pat/StepTonalSrc.v; method calls on Scale / Key objects: Pat/TonalSrcLib.v.\n\n"
+            "%s *)\n"
+            "From Isobar Require Import Base.Prelude Pat.Val Pat.Syntax Pat.Step Pat.SrcLib Pat.Ref Tonal.Key Pat.TonalStreams Pat.TonalSrcLib.\n"
+            "From Coq Require Import String QArith.\n"
+            "Open Scope Z_scope.\n\n%s" % ("\n".join("   " + comment(l) for l in lines), "\n".join(body)))
+    for l in lines:
+        print("tables-steptonal: " + l)
+    if failed:
+        raise Reject("classes that Pat/StepTonalSrc.v has a proof for no longer translate: " + "; ".join(failed))
+    old = open(out_path).read() if os.path.exists(out_path) else None
+    if old != text:
+        tmp = out_path + ".tmp%d" % os.getpid()
+        with open(tmp, "w") as f:
+            f.write(text)
+        os.replace(tmp, out_path)
+        print("tables-steptonal: rewritten")
+    else:
+        print("tables-steptonal: unchanged")
 
 
 if __name__ == "__main__":
